@@ -174,7 +174,38 @@ def check_bounds(ctx):
         ctx.check(("call", pin[0]) in o, inst, "PROVENANCE", body.path, "TreeSlot::load uses the guard pinned by this scan", body.where(ld[0]))
 
 
+def check_range_resolution(ctx, inst="C14.resolve"):
+    """one scanned entry, one identity: the value a range scan returns under an entry's key is resolved for *that entry's* key and
+    from the record loaded out of *that entry's* slot. The key argument only matters on the stale-handle path (the extent was
+    retired under the scanner and the value is re-resolved through the hash table by key): with another key there, the scan
+    returns another key's bytes under this entry's key."""
+    body = ctx.fn("FeoxStore::range_query", inst)
+    if body is None:
+        return
+    rv = ctx.sites(body, R.call_reaching("FeoxStore::resolve_record_value", within="FeoxStore"), inst, exact=1)
+    ld = ctx.sites(body, R.call("TreeSlot::load"), inst, exact=1)
+    push = [n.id for n in body.calls() if R.call_matches(n.ev, "Vec::push")]
+    if not (rv and ld):
+        return
+    k = R.arg_expr(body, body.nodes[rv[0]], 1)
+    ctx.check(k.has_call("Entry::key") and not any(x.k == "arg" and x.extra[0] > 1 for x in k.walk()), inst, "PROVENANCE", body.path,
+              "the value is (re-)resolved for this entry's key, not for a bound of the scan", body.where(rv[0]), {"key": k.show()[:100]})
+    rec = R.arg_expr(body, body.nodes[rv[0]], 2, transparent=False)
+    ctx.check(any(c.nid in ld for c in rec.calls()), inst, "PROVENANCE", body.path, "the record resolved is the one loaded from this entry's slot", body.where(rv[0]))
+    slot = R.arg_expr(body, body.nodes[ld[0]], 0)
+    ctx.check(slot.has_call("Entry::value"), inst, "PROVENANCE", body.path, "the slot loaded is this entry's value", body.where(ld[0]), {"slot": slot.show()[:100]})
+    # the key handed out with the value and the key the value was resolved for come from the same entry
+    for p_ in push:
+        t = R.arg_expr(body, body.nodes[p_], 1)
+        if t.k == "agg" and len(t.a) == 2 and any(c.nid in rv for c in t.a[1].calls()):
+            ek = [c for c in t.a[0].walk() if c.k == "call" and path_matches(c.extra, "Entry::key")]
+            rk = [c for c in k.walk() if c.k == "call" and path_matches(c.extra, "Entry::key")]
+            same = bool(ek) and bool(rk) and ek[0].a and rk[0].a and ek[0].a[0].key() == rk[0].a[0].key()
+            ctx.check(same, inst, "PROVENANCE", body.path, "the key pushed and the key resolved belong to the same entry", body.where(p_))
+
+
 def check(ctx):
+    check_range_resolution(ctx)
     check_pair(ctx)
     check_slot(ctx)
     check_bounds(ctx)
